@@ -35,6 +35,7 @@
                                          mirrored parameters is the negated residual
   * `amp_interval_excludes_zero`        a fitted amplitude that honours its bounds is never 0
   * `polarity_partition`, `polarity_other_in_both`, `polarity_none`   the filter
+  * `history_independent`, `history_partition`   a reused finder's answer depends on the current flags only
 
   NOT proved (sampled by `harness/corr_C13.py`, run pairs on the real code): that
   `lmfit.minimize`/MINPACK, started from mirrored initial values with mirrored bounds on a
@@ -326,6 +327,27 @@ theorem polarity_none (cat : List β) (h : ∀ s ∈ cat, sg s ≠ .other) : fil
   intro s hs
   have := h s hs
   cases hsg : sg s <;> simp_all [keep]
+
+/-- **history_independent**: what a reused finder answers for a setting does not depend on the
+    settings it was asked before: the answer to the last call of any history is the filter of that
+    call's own flags (so it equals a fresh finder's answer). -/
+theorem history_independent (cat : List β) (earlier : List (Bool × Bool)) (c : Bool × Bool) :
+    (runHistory sg cat (earlier ++ [c])).getLast? = some (filterCat sg c.1 c.2 cat) := by
+  simp [runHistory]
+
+/-- hence the partition clause holds among the answers of one history, whatever the order -/
+theorem history_partition (cat : List β) (h : ∀ s ∈ cat, sg s ≠ .other) (e1 e2 e3 : List (Bool × Bool)) :
+    ∃ pos neg both,
+      (runHistory sg cat (e1 ++ [(false, true)])).getLast? = some pos ∧
+      (runHistory sg cat (e2 ++ [(true, false)])).getLast? = some neg ∧
+      (runHistory sg cat (e3 ++ [(false, false)])).getLast? = some both ∧
+      pos.length + neg.length = both.length ∧ (∀ s, ¬ (s ∈ pos ∧ s ∈ neg)) ∧
+      (∀ s, s ∈ both ↔ s ∈ pos ∨ s ∈ neg) := by
+  refine ⟨_, _, _, history_independent sg cat e1 _, history_independent sg cat e2 _,
+    history_independent sg cat e3 _, ?_, ?_, ?_⟩
+  · exact (polarity_partition sg cat h).2.2.2.2
+  · exact (polarity_partition sg cat h).2.2.2.1
+  · exact (polarity_partition sg cat h).2.2.1
 
 /-- how the filter classifies a real peak flux -/
 theorem sgnOf_real (x : ℝ) : sgnOf x = if 0 < x then .pos else if x < 0 then .neg else .other := by
